@@ -336,3 +336,17 @@ Example modify_run :
            [[PK [97%N]]; [PK [98%N]; PI 1%Z]] =
   Some (JObj [([97%N], JNum 7); ([98%N], JArr [JNum 1; JNum 7; JNum 3])]).
 Proof. vm_compute. split; reflexivity. Qed.
+
+(* the relaxed side condition (statement only, see props/C02.v C02_modify_part_open): the output of the body may
+   own allocated containers, all taken from the footprint of the value the body was given (it returns its input,
+   a child, or a prefix slice of it) *)
+Definition body_part_ok (fv : jv -> option jv) (fh : heap -> hval -> heap * option hval) : Prop :=
+  forall h ps x jx fx, orep h ps jx x fx -> NoDup fx ->
+  exists ext ou, fh h x = (h ++ ext, ou) /\
+    (forall a o, nth_error ext a = Some o -> obj_clean o) /\
+    match ou, fv jx with
+    | Some u, Some ju => exists fu, orep (h ++ ext) ps ju u fu /\ NoDup fu /\ incl fu fx
+    | None, None => True
+    | _, _ => False
+    end.
+
